@@ -506,3 +506,4 @@ var propRoundTrip = vk.Register(&vk.Prop[Case]{
 })
 
 func TestRandom(t *testing.T) { propRoundTrip.Run(t) }
+func FuzzRandom(f *testing.F) { propRoundTrip.Fuzz(f) }
